@@ -14,6 +14,10 @@ import (
 )
 
 func (g *gen) fragScenario(w *world) {
+	g.gluedStreamsPlain(w)
+	if w.dead {
+		return
+	}
 	version := 2 + g.r.Intn(2)
 	pol := 2
 	hdr := 17
@@ -137,6 +141,17 @@ func (g *gen) fragScenario(w *world) {
 			l.deliver(true)
 		}
 	}
+	// pieces of two different messages: the first k genuine pieces of a long message, then the pieces
+	// k+1..m of a shorter one (m pieces, so the next index with another, smaller total): what was
+	// collected is forgotten, nothing is glued together, nothing is processed; the shorter message
+	// delivered completely afterwards arrives exactly once
+	if w.dead {
+		return
+	}
+	g.gluedStreamsSession(w, l, a, b, version, hdr)
+	if w.dead {
+		return
+	}
 	// one stream with every kind of rejected fragment thrown in between its pieces (unparsable header,
 	// a header of the other version, too few parts, illegal numbering, another instance): they are
 	// pieces of no stream, the genuine pieces all arrive in order and the text is delivered once
@@ -254,6 +269,203 @@ func (g *gen) fragScenario(w *world) {
 			break
 		}
 	}
+}
+
+// nothing at all may come out of a delivery that completes no stream
+func quietDelivery(plain []byte, ts []otr3.ValidMessage, err error) bool {
+	return plain == nil && len(ts) == 0 && err == nil && lastEvents == "[]"
+}
+
+// Hand-made fragments of unencrypted payloads, in both header formats, delivered to a fresh
+// conversation: pieces 1..k of a stream of n pieces, then the pieces k+1..n' of another stream with
+// another total n' (smaller: n' = k+1 completes at once, k+1 < n' < n completes later; larger: never
+// completes). The second stream was never delivered from its first piece on: nothing may be
+// processed - no plaintext, no event, no error, nothing to send.
+func (g *gen) gluedStreamsPlain(w *world) {
+	word := func(n int) []byte {
+		b := make([]byte, n)
+		for i := range b {
+			b[i] = byte('a' + g.r.Intn(26))
+		}
+		return b
+	}
+	split := func(whole []byte, n int) [][]byte {
+		var ps [][]byte
+		for i := 0; i < n; i++ {
+			ps = append(ps, whole[i*len(whole)/n:(i+1)*len(whole)/n])
+		}
+		return ps
+	}
+	for _, version := range []int{2, 3} {
+		for variant := 0; variant < 3 && !w.dead; variant++ {
+			var p *party
+			var ot, tt uint32
+			if version == 2 {
+				p = w.newParty(partyCfg{policies: 2, keyIdx: 1, errh: true})
+			} else {
+				tt = 0x100 + g.r.Uint32()%0xfffffe00
+				ot = 0x100 + g.r.Uint32()%0xfffffe00
+				p = w.newParty(partyCfg{policies: 4, keyIdx: 1, errh: true, tag: tt})
+			}
+			mk := func(ix, tot int, part []byte) []byte {
+				if version == 3 {
+					return []byte(fmt.Sprintf("?OTR|%08x|%08x,%05d,%05d,%s,", ot, tt, ix, tot, part))
+				}
+				return []byte(fmt.Sprintf("?OTR,%05d,%05d,%s,", ix, tot, part))
+			}
+			n := 3 + g.r.Intn(5)
+			k := 1 + g.r.Intn(n-2) // 1..n-2 pieces of the first stream arrive (k+1 of k+1 is then another total)
+			var n2 int
+			kind := ""
+			switch variant {
+			case 0: // the very next piece is the last one of the other stream
+				n2, kind = k+1, "smaller total, completing at once"
+			case 1: // any smaller total, the remaining pieces of the other stream follow
+				n2, kind = k+1+g.r.Intn(n-k-1), "smaller total"
+			default:
+				k = 1 + g.r.Intn(n-1)
+				n2, kind = n+1+g.r.Intn(3), "larger total"
+			}
+			first := split([]byte(fmt.Sprintf("first stream %d %s and so on", g.r.Intn(1000000), word(10+g.r.Intn(40)))), n)
+			secondWhole := []byte(fmt.Sprintf("second stream %d %s the end", g.r.Intn(1000000), word(10+g.r.Intn(40))))
+			second := split(secondWhole, n2)
+			g.dist[fmt.Sprintf("frag:glued-plain:v%d:%d", version, variant)]++
+			var arrivals [][]byte
+			var what []string
+			for i := 0; i < k; i++ {
+				arrivals = append(arrivals, mk(i+1, n, first[i]))
+				what = append(what, fmt.Sprintf("%d/%d", i+1, n))
+			}
+			for i := k; i < n2; i++ {
+				arrivals = append(arrivals, mk(i+1, n2, second[i]))
+				what = append(what, fmt.Sprintf("%d/%d", i+1, n2))
+			}
+			for i, m := range arrivals {
+				plain, ts, err, panicked := w.recv(p, m)
+				if panicked {
+					return
+				}
+				olog.ok("C14")
+				if !quietDelivery(plain, ts, err) {
+					olog.viol("C14", "glued-from-two-streams", fmt.Sprintf("OTRv%d header, fresh conversation, unencrypted payload: after the pieces %v of one stream and then %v of another (%s), arrival %d = %q caused something to be processed: plaintext %.60q, %d messages to send, error %v, events %s",
+						version, what[:k], what[k:i+1], kind, i+1, m, plain, len(ts), err, lastEvents))
+					break
+				}
+			}
+			// the second stream, delivered from its first piece on, arrives - once
+			got := 0
+			for i := 0; i < n2 && !w.dead; i++ {
+				plain, _, _, _ := w.recv(p, mk(i+1, n2, second[i]))
+				if plain != nil {
+					got++
+					if i != n2-1 || !bytes.Equal(plain, secondWhole) {
+						got += 100
+					}
+				}
+			}
+			olog.ok("C14")
+			if got != 1 && !w.dead {
+				olog.viol("C14", "lossy-or-duplicated", fmt.Sprintf("OTRv%d header, fresh conversation: an unencrypted text of %d bytes in %d hand-made pieces delivered in order after a forgotten stream was not delivered exactly once, unaltered, with the last piece (code %d)", version, len(secondWhole), n2, got))
+			}
+		}
+	}
+}
+
+func (g *gen) gluedStreamsSession(w *world, l *link, a, b *party, version, hdr int) {
+	size := hdr + 30 + g.r.Intn(120)
+	a.c.SetFragmentSize(uint16(size))
+	w.g.out.emit(fmt.Sprintf("setfrag %s %d", a.id, size), "ok")
+	letters := func(n int) []byte {
+		t := make([]byte, n)
+		for i := range t {
+			t[i] = byte('a' + g.r.Intn(26))
+		}
+		return t
+	}
+	longText := append([]byte(fmt.Sprintf("<long-%d>", g.r.Intn(1000000))), letters(500+g.r.Intn(500))...)
+	shortText := append([]byte(fmt.Sprintf("<short-%d>", g.r.Intn(1000000))), letters(g.r.Intn(30))...)
+	long, err := w.send(a, longText)
+	if err != nil || w.dead {
+		return
+	}
+	short, err := w.send(a, shortText)
+	if err != nil || w.dead {
+		return
+	}
+	m := len(short)
+	if m < 2 || len(long) <= m {
+		return
+	}
+	k := m - 1
+	if g.r.Intn(3) == 0 {
+		k = 1 + g.r.Intn(m-1)
+	}
+	g.dist["frag:glued-session"]++
+	for i := 0; i < k; i++ {
+		plain, ts, err, panicked := w.recv(b, long[i])
+		if panicked {
+			return
+		}
+		if !quietDelivery(plain, ts, err) {
+			olog.viol("C14", "delivered-early", fmt.Sprintf("OTRv%d: piece %d of %d of a data message caused something to be processed: plaintext %.40q, %d messages to send, error %v, events %s", version, i+1, len(long), plain, len(ts), err, lastEvents))
+			return
+		}
+	}
+	for i := k; i < m; i++ {
+		// the genuine piece of the shorter message, or a crafted one with the same numbers and payload
+		piece := []byte(short[i])
+		if g.r.Intn(2) == 0 {
+			body := piece[bytes.IndexByte(piece, ',')+1:]
+			if version == 3 {
+				piece = []byte(fmt.Sprintf("?OTR|%08x|%08x,%05d,%05d,%s", otr3.VerifSnapshot(a.c).OurTag, otr3.VerifSnapshot(b.c).OurTag, i+1, m, fragPayload(body)))
+			} else {
+				piece = []byte(fmt.Sprintf("?OTR,%05d,%05d,%s", i+1, m, fragPayload(body)))
+			}
+		}
+		plain, ts, err, panicked := w.recv(b, piece)
+		if panicked {
+			return
+		}
+		olog.ok("C14")
+		if !quietDelivery(plain, ts, err) {
+			olog.viol("C14", "glued-from-two-streams", fmt.Sprintf("OTRv%d encrypted session, fragment size %d: after the genuine pieces 1..%d of %d of a data message (text of %d bytes), the piece %d of %d carrying the payload of piece %d of a shorter genuine data message (text of %d bytes, %d pieces) = %.50q… caused something to be processed: plaintext %.40q, %d messages to send, error %v, events %s",
+				version, size, k, len(long), len(longText), i+1, m, i+1, len(shortText), m, piece, plain, len(ts), err, lastEvents))
+			l.enqueue(b, ts)
+			break
+		}
+	}
+	// the shorter message, delivered completely, arrives exactly once
+	got := 0
+	for _, p := range short {
+		plain, ts, _, _ := w.recv(b, p)
+		if w.dead {
+			return
+		}
+		if plain != nil && bytes.Equal(plain, shortText) {
+			got++
+		} else if plain != nil {
+			got += 100
+		}
+		l.enqueue(b, ts)
+	}
+	olog.ok("C14")
+	if got != 1 {
+		olog.viol("C14", "lossy-or-duplicated", fmt.Sprintf("OTRv%d: a text of %d bytes in %d pieces, delivered in order after a forgotten stream, was not delivered exactly once (code %d)", version, len(shortText), m, got))
+	}
+	for len(l.qba) > 0 {
+		l.deliver(false)
+	}
+	for len(l.qab) > 0 {
+		l.deliver(true)
+	}
+}
+
+// "k,n,payload," -> "payload,"
+func fragPayload(body []byte) []byte {
+	for i := 0; i < 2; i++ {
+		body = body[bytes.IndexByte(body, ',')+1:]
+	}
+	return body
 }
 
 // reports whether what it injected legitimately disturbs a stream in progress (a piece of the stream
